@@ -494,11 +494,14 @@ package gorums
 //@   ghost pendL Int = 0
 //@   ghost hi Int = LevelNotSet
 //@   ghost ndel Int = 0
+//@   ghost earlyDel Bool = false
 //@   loop "for _, n := range c"
 //@     invariant[C09.e,C18.a] ndel == idx && state.data.ServerStream
 //@   on defer "n.channel.deleteRouter"
 //@     assert[C09.e,C18.a] recv == c[idx-1].channel && arg0 == state.md.MessageID
 //@     set ndel = ndel + 1
+//@   on call? "n.channel.deleteRouter"
+//@     set earlyDel = true
 //@   on return
 //@     assert[C09.e,C18.a] state.data.ServerStream ==> ndel == len(c)
 //@   loop "for {"
@@ -535,6 +538,7 @@ package gorums
 //@     after set pendL = res1
 //@     after set hi = ite(res1 > hi, res1, hi)
 //@   on call "corr.set"
+//@     assert[C08.d] !earlyDel
 //@     assert[C11.e] doneCalls == 0
 //@     assert[C11.b] pend ==> arg0 == pendV && arg3 == pendDone && arg2 == nil
 //@     assert[C11.b] pend ==> arg1 == hi
@@ -968,9 +972,20 @@ package gorums
 
 // The watcher goroutine of sendMsg: it must end when done is closed, and may cancel the
 // stream only through state it may legally read.
+// C09.g: the watcher resets the stream only when the request's context ended and a second,
+// non-blocking look at done found the send still in progress (both can be ready at once: without the
+// second look a finished send gets its healthy stream cancelled).
 //@ func (*channel).sendMsg$2
-//@   props C08 C15 C18
+//@   props C08 C09 C15 C18
 //@   mode concurrent
+//@   ghost ctxEnded Bool = false
+//@   ghost looked Bool = false
+//@   on recv "req.ctx.Done()"
+//@     set ctxEnded = true
+//@   on default ""
+//@     set looked = true
+//@   on call "cancelStream"
+//@     assert[C09.g] ctxEnded && looked
 //@   blocks until req.ctx
 //@   opt effect-tags=C18.b
 
@@ -1045,9 +1060,10 @@ package gorums
 //@   ghost cancelled Int = 0
 //@   ghost owing Bool = false
 //@   ghost marked Bool = true
+//@   ghost closedSeen Bool = false
 //@   ghost usedResp (Array Int Bool) = constarr("Int", false)
 //@   loop "for {"
-//@     invariant cancelled == 0 && !owing
+//@     invariant cancelled == 0 && !owing && !closedSeen
 //@     invariant[C05.f] forall(r, "Int", usedResp[r] ==> allocated(r))
 //@   on call "c.gorumsStream.RecvMsg"
 //@     assert[C09.f] heldR(c.streamMut)
@@ -1058,8 +1074,11 @@ package gorums
 //@   on call "c.streamBroken.set"
 //@     assert[C09.f] heldR(c.streamMut) && owing
 //@     set marked = true
+//@   on recv "c.parentCtx.Done()"
+//@     set closedSeen = true
 //@   on return
 //@     assert[C07.e,C12.b] !owing
+//@     assert[C10.f,C09.h] closedSeen
 //@   on call "c.cancelPendingMsgs"
 //@     assert[C09.b] nolocks()
 //@     assert[C09.f] marked
@@ -1209,6 +1228,8 @@ package gorums
 //@   ensures[C07.c] err == nil ==> md.Status == protoOf(statusOfErr(err))
 //@   ensures[C07.c] err != nil && isStatusErr(err) ==> md.Status == protoOf(statusOfErr(err))
 //@   ensures[C07.c] err != nil && !isStatusErr(err) ==> md.Status == protoOf(newStatus(2, errText(err)))
+//@   ensures[C07.c,C13.b] err != nil && isStatusErr(err) && md.Status != nil ==> md.Status.Message == stMsg(statusOfErr(err)) && md.Status.Code == stCode(statusOfErr(err))
+//@   ensures[C07.c,C13.b] err != nil && !isStatusErr(err) && md.Status != nil ==> md.Status.Message == errText(err) && md.Status.Code == 2
 //@   ensures[C01.b] md.MessageID == old(md.MessageID) && md.Method == old(md.Method)
 
 //@ func SendMessage
@@ -1529,7 +1550,7 @@ package gorums
 // sorted by id. Ghosts: T = the temporary slice append(o.old, o.add...) that is ranged
 // over; pos[id] = slot of the node with that id in nodes; src[i] = index in T of nodes[i].
 //@ func (addConfig).newConfig
-//@   props C14 C15
+//@   props C14 C15 C03
 //@   nopanic C14
 //@   requires mgr != nil && len(o.old) > 0
 //@   requires forall(k, 0, len(o.old), o.old[k] != nil) && forall(k, 0, len(o.add), o.add[k] != nil)
@@ -1596,7 +1617,7 @@ package gorums
 //@   ensures[C14.a] result <==> exists(k, 0, len(c), c[k].id == id)
 
 //@ func (nodeIDs).newConfig
-//@   props C14 C15
+//@   props C14 C15 C03
 //@   nopanic C14
 //@   requires mgr != nil && mgr.lookup != nil
 //@   requires forall(id, in(id, mgr.lookup) ==> mgr.lookup[id] != nil && mgr.lookup[id].id == id)
@@ -1633,7 +1654,7 @@ package gorums
 // WithNodeList: one node per distinct address, carrying that address; an address whose
 // generated id is registered for a different address is rejected (C14.g).
 //@ func (nodeList).newConfig
-//@   props C14 C15
+//@   props C14 C15 C03
 //@   nopanic C14
 //@   requires mgr != nil && mgr.lookup != nil
 //@   requires forall(id, in(id, mgr.lookup) ==> mgr.lookup[id] != nil && mgr.lookup[id].id == id)
@@ -1737,7 +1758,7 @@ package gorums
 // result (C14.e) is not claimed here: the map model does not tie len(m) > 0 to the
 // existence of a key.
 //@ func (nodeIDMap).newConfig
-//@   props C14 C15
+//@   props C14 C15 C03
 //@   nopanic C14
 //@   requires mgr != nil && mgr.lookup != nil
 //@   requires forall(id, in(id, mgr.lookup) ==> mgr.lookup[id] != nil && mgr.lookup[id].id == id)
